@@ -203,6 +203,41 @@ def _refs_method(trees, path, owner, node, static, classm=False):
                 by_func[id(n.func)] = n
             if isinstance(n, ast.Constant) and n.value == name:
                 return [], False           # getattr(self, 'name') and such
+    # `self.<name>` inside a class that is neither an ancestor nor a
+    # descendant of the owner is that class's own attribute
+    bases = {}
+    for p, tree in trees.items():
+        for n in ast.walk(tree):
+            if isinstance(n, ast.ClassDef):
+                bases.setdefault(n.name, set()).update(
+                    (b.attr if isinstance(b, ast.Attribute) else
+                     getattr(b, 'id', '?')) for b in n.bases)
+
+    def ancestors(k, seen=None):
+        seen = seen if seen is not None else set()
+        for b in bases.get(k, ()):
+            if b not in seen:
+                seen.add(b)
+                ancestors(b, seen)
+        return seen
+    foreign = set()
+    own_line = ancestors(owner.name) | {owner.name}
+    for p, tree in trees.items():
+        for k in ast.walk(tree):
+            if isinstance(k, ast.ClassDef) and k is not owner and \
+                    k.name not in own_line and \
+                    owner.name not in ancestors(k.name) and \
+                    '?' not in ancestors(k.name):
+                for m in k.body:
+                    if isinstance(m, (ast.FunctionDef,
+                                      ast.AsyncFunctionDef)) and \
+                            m.args.args and m.args.args[0].arg == 'self':
+                        for x in ast.walk(m):
+                            if isinstance(x, ast.Attribute) and \
+                                    x.attr == name and \
+                                    isinstance(x.value, ast.Name) and \
+                                    x.value.id == 'self':
+                                foreign.add(id(x))
     recv = ('self', owner.name) if static else ('self',)
     if classm:
         # `cls.helper(...)` written inside a classmethod of the same class:
@@ -224,6 +259,8 @@ def _refs_method(trees, path, owner, node, static, classm=False):
     for p, tree in trees.items():
         for n in ast.walk(tree):
             if isinstance(n, ast.Attribute) and n.attr == name:
+                if id(n) in foreign:
+                    continue
                 call = by_func.get(id(n))
                 if call is None or id(n) not in inside or \
                         not isinstance(n.value, ast.Name) or \
@@ -1636,6 +1673,7 @@ class _Quantifiers(ast.NodeTransformer):
     def __init__(self):
         self.count = 0
         self.tuples = [{}]
+        self.loaded = []
 
     def _scope(self, node):
         stores = {}
@@ -1658,12 +1696,61 @@ class _Quantifiers(ast.NodeTransformer):
                         for e in x.value.elts):
                 local[x.targets[0].id] = x.value
         self.tuples.append(local)
+        self.loaded.append({x.id for x in ast.walk(node)
+                            if isinstance(x, ast.Name) and
+                            isinstance(x.ctx, ast.Load)})
         self.generic_visit(node)
+        self.loaded.pop()
         self.tuples.pop()
         return node
 
     visit_FunctionDef = _scope
     visit_AsyncFunctionDef = _scope
+
+    def visit_Assign(self, node):
+        """`first, *_ = xs` is `first = xs[0]`; `*_, last = xs` is
+        `last = xs[-1]` (the starred name never read)."""
+        self.generic_visit(node)
+        t = node.targets[0] if len(node.targets) == 1 else None
+        if not (isinstance(t, ast.Tuple) and self.loaded and
+                _stable_path(node.value) and
+                sum(isinstance(e, ast.Starred) for e in t.elts) == 1 and
+                all(isinstance(e, ast.Name) or (
+                    isinstance(e, ast.Starred) and
+                    isinstance(e.value, ast.Name)) for e in t.elts)):
+            return node
+        star = [i for i, e in enumerate(t.elts)
+                if isinstance(e, ast.Starred)][0]
+        out = []
+        for i, e in enumerate(t.elts):
+            if i == star:
+                if e.value.id in self.loaded[-1]:
+                    # the rest, when it is read: `rest = list(xs[i:j])`
+                    after = len(t.elts) - 1 - i
+                    sl = ast.Slice(
+                        lower=ast.Constant(value=i) if i else None,
+                        upper=ast.UnaryOp(op=ast.USub(), operand=ast.Constant(
+                            value=after)) if after else None, step=None)
+                    out.append(ast.copy_location(ast.Assign(
+                        targets=[ast.Name(id=e.value.id, ctx=ast.Store())],
+                        value=ast.Call(
+                            func=ast.Name(id='list', ctx=ast.Load()),
+                            args=[ast.Subscript(
+                                value=copy.deepcopy(node.value), slice=sl,
+                                ctx=ast.Load())], keywords=[]),
+                        lineno=node.lineno), node))
+                continue
+            idx = i if i < star else i - len(t.elts)
+            out.append(ast.copy_location(ast.Assign(
+                targets=[ast.Name(id=e.id, ctx=ast.Store())],
+                value=ast.Subscript(value=copy.deepcopy(node.value),
+                                    slice=ast.Constant(value=idx),
+                                    ctx=ast.Load()),
+                lineno=node.lineno), node))
+        if not out:
+            return node
+        self.count += 1
+        return out
 
     def _elements(self, it):
         if isinstance(it, ast.Name):
@@ -1794,6 +1881,10 @@ def module_constants(tree):
     concatenation and %-formatting of literals."""
     def literal(e):
         if isinstance(e, ast.Constant):
+            return True
+        if isinstance(e, ast.UnaryOp) and isinstance(e.op, ast.USub) and \
+                isinstance(e.operand, ast.Constant) and \
+                isinstance(e.operand.value, (int, float)):
             return True
         if isinstance(e, ast.Tuple):
             # (immutable values only: a module-level list / dict / set is
